@@ -997,3 +997,56 @@ def _lexsort(I, a, k):
             c.sort_log = []
         c.sort_log.append({"perm": p, "inv": pinv, "n": nt, "key": key, "nk": nk})
     return out
+
+
+@model(scipy.signal.windows.cosine)
+def _cosine(I, a, k):
+    """A-SCIPY: cosine(M)[j] = sin(pi (j+0.5)/M): values in (0,1], symmetric, centre tap == 1 when M is odd"""
+    if not _anysym(a, k):
+        return NotImplemented
+    m = term(a[0])
+    f = z3.Function(fresh_name("coswin"), z3.IntSort(), z3.RealSort())
+
+    def facts(idx, t):
+        j = idx[0]
+        return [z3.Implies(z3.And(j >= 0, j < m), z3.And(t > 0, t <= 1, t == f(m - 1 - j))),
+                z3.Implies(z3.And(m % 2 == 1, j == (m - 1) / 2), t == 1)]
+    arr = SArr(np.float64, (A.dim(m),), lambda idx: f(idx[0]))
+    arr.facts_on_read = facts
+    arr.window = ("cosine", m, f)
+    return arr
+
+
+@model(scipy.signal.convolve)
+def _convolve(I, a, k):
+    """A-SCIPY direct convolution, mode='same', 1-D, with a non negative kernel w of length M:
+       out[t] = sum_k x[k] w[t + (M-1)//2 - k];  for x >= 0:  out[t] >= 0,  out[t] >= x[k] w[t+(M-1)//2-k] for every k (single-term bound),
+       out[t] == 0 when x vanishes on the support [t + (M-1)//2 - (M-1), t + (M-1)//2]."""
+    if not _anysym(a, k):
+        return NotImplemented
+    mode = k.get("mode", a[2] if len(a) > 2 else "full")
+    x, w = A.as_sarr(a[0]), A.as_sarr(a[1])
+    if mode != "same" or x.ndim != 1 or w.ndim != 1:
+        raise Unsupported("scipy.signal.convolve other than 1-D mode='same'")
+    if x.dtype.kind != "b":
+        raise Unsupported("convolve model needs a boolean (non negative) first operand")
+    xs, ws = x.snapshot(), w.snapshot()
+    n, m = A.T(x.shape[0]), A.T(w.shape[0])
+    f = z3.Function(fresh_name("conv"), z3.IntSort(), z3.RealSort())
+    h = (m - 1) / 2
+    kk = z3.Int(fresh_name("k"))
+
+    def facts(idx, t):
+        tt = idx[0]
+        lo, hi = tt + h - (m - 1), tt + h
+        single = A.forall_hyp([kk], lambda: z3.Implies(z3.And(kk >= 0, kk < n, kk >= lo, kk <= hi, xs((kk,))), t >= ws((tt + h - kk,))))
+        empty = z3.Implies(A.forall([kk], lambda: z3.Implies(z3.And(kk >= 0, kk < n, kk >= lo, kk <= hi), z3.Not(xs((kk,))))), t == 0)
+        return [t >= 0, single, empty]
+    out = SArr(np.float64, (A.dim(n),), lambda idx: f(idx[0]))
+    out.facts_on_read = facts
+    c = A.cur()
+    if c is not None:
+        if not hasattr(c, "conv_log"):
+            c.conv_log = []
+        c.conv_log.append({"x": xs, "w": w, "n": n, "m": m, "out": f})
+    return out
